@@ -24,6 +24,7 @@ var noopPkgs = []string{
 	"github.com/natefinch/lumberjack",
 	"runtime/debug",
 	"runtime/pprof",
+	"github.com/openebs/sparse-tools/stats",
 }
 
 // std / third-party packages interpreted from source when reached
